@@ -359,6 +359,13 @@ def run(chk, facts, info):
     rule_r1b(chk, facts, P)
     rule_r2(chk, facts, P)
     rule_r3(chk, facts, P)
+    chk.rule('C17-R5', 'in the assembler, every ChkIO()/ChkXIO()/ChkStrIO() call (which turns a non-zero errno into a fatal '
+             'error) stands under a failure test of the operation it checks or is preceded on every path by errno = 0: '
+             'writing a report file (listing, -P macro output, share file) cannot abort the assembly because of a stale '
+             'errno', min_instances=80)
+    n5 = errno_rule(chk, facts, 'C17-R5', ['asl'])
+    if n5 < 80:
+        raise AnalysisBroken('only %d ChkIO call sites found' % n5)
     rule_r4(chk, facts, P)
     chk.note('Decided: non-interference of report-only options with code-affecting state (per read site), confinement '
              'of the dual-use formatting options, reviewed sites of clock/environment reads, single option decoder. Not '
